@@ -96,6 +96,11 @@ def gen(rng, tier, idx):
                 p.op(t, "attr_flush")
             elif a == "cpu":
                 c = (len(exp[t]["cpus"]), 10 * t + len(exp[t]["cpus"]))
+                if exp[t]["cpus"] and r.chance(20):
+                    # the library records what it is told: an exact repeat, or an index it already has with another
+                    # physical id (whether the whole trace is consistent is the emulator's business)
+                    old_ = r.choice(exp[t]["cpus"])
+                    c = tuple(old_) if r.chance(40) else (old_[0], old_[1] + 100)
                 exp[t]["cpus"].append(c)
                 p.op(t, "add_cpu", c[0], c[1])
             elif a == "rank":
